@@ -6,6 +6,7 @@ import (
 	"sort"
 	"strings"
 
+	"verifmc/canon"
 	"verifmc/core"
 )
 
@@ -20,7 +21,32 @@ type tnode struct {
 type C15Case struct {
 	Tree *tnode   `json:"tree"` // the "work" directory (cwd of the run)
 	Args []string `json:"args"` // "$ABS" is replaced by the absolute path of work
+	// Contents (family "contents"): instead of a generated tree, the files work/a.go, work/b.go and work/sub/c.go
+	// with these content kinds; the patch carries an import guard that every kind satisfies.
+	Contents []string `json:"contents,omitempty"`
 }
+
+// c15ContentKinds: Go files that all import "strings" without a name, in every spelling and layout the language
+// allows, and contain the site. Whatever a requested file looks like, it is processed.
+var c15ContentKinds = map[string]string{
+	"plain":        "package a\n\nimport \"strings\"\n\nvar x = v0\n\nvar _ = strings.ToUpper\n",
+	"raw":          "package a\n\nimport `strings`\n\nvar x = v0\n\nvar _ = strings.ToUpper\n",
+	"escaped":      "package a\n\nimport \"string\\x73\"\n\nvar x = v0\n\nvar _ = strings.ToUpper\n",
+	"grouped-one":  "package a\n\nimport (\n\t\"strings\"\n)\n\nvar x = v0\n\nvar _ = strings.ToUpper\n",
+	"grouped":      "package a\n\nimport (\n\t\"os\"\n\t\"strings\"\n)\n\nvar x = v0\n\nvar _, _ = strings.ToUpper, os.Args\n",
+	"empty-group":  "package a\n\nimport ()\n\nimport \"strings\"\n\nvar x = v0\n\nvar _ = strings.ToUpper\n",
+	"cgo":          "package a\n\n/*\n#include <stdio.h>\n*/\nimport \"C\"\n\nimport \"strings\"\n\nvar x = v0\n\nvar _ = strings.ToUpper(C.GoString(nil))\n",
+	"crlf":         "package a\r\n\r\nimport \"strings\"\r\n\r\nvar x = v0\r\n\r\nvar _ = strings.ToUpper\r\n",
+	"bom":          "\xef\xbb\xbfpackage a\n\nimport \"strings\"\n\nvar x = v0\n\nvar _ = strings.ToUpper\n",
+	"no-newline":   "package a\n\nimport \"strings\"\n\nvar x = v0\n\nvar _ = strings.ToUpper",
+	"semicolons":   "package a; import \"strings\"; var x = v0; var _ = strings.ToUpper\n",
+	"shadowed":     "package a\n\nimport \"strings\"\n\nvar x = v0\n\nfunc f(strings T) { strings.M() }\n",
+	"dot-and-name": "package a\n\nimport (\n\t. \"fmt\"\n\t\"strings\"\n\tstr2 \"strings\"\n)\n\nvar x = v0\n\nvar _, _ = strings.ToUpper, str2.ToLower\n",
+}
+
+var c15ContentOrder = []string{"plain", "raw", "escaped", "grouped-one", "grouped", "empty-group", "cgo", "crlf", "bom", "no-newline", "semicolons", "shadowed", "dot-and-name"}
+
+const c15GuardedPatch = "@@\n@@\n import \"strings\"\n\n-v0\n+v0 + 1\n"
 
 const (
 	c15Src     = "package a\n\nvar x = v0\n"
@@ -32,7 +58,7 @@ func init() {
 	core.Register(&core.Property{
 		ID:    "C15",
 		Level: "model_checking",
-		Rule: "universe = directory trees from a grammar (depth <=3; per directory subsets of {a.go, b.txt, .x.go, c.go->symlink to a file outside, l->symlink to a directory outside, d.go/ directory, sub/, vendor/, testdata/, .h/, _u/}) x argument lists (length 1..2, thorough ..3) derived from the tree: '.', './...', '...', absolute, dir, dir/..., explicit files (also inside excluded directories), symlinks, non-Go files, duplicates, overlapping dir+file, abs+rel of the same path. " +
+		Rule: "universe = (contents) every assignment of 13 content kinds (import spelled raw / escaped / grouped / next to an empty group / next to cgo, CRLF, BOM, no final newline, semicolons, shadowed package name) to the requested files of a fixed tree, under a patch with an import guard: each is processed exactly once; (trees) directory trees from a grammar (depth <=3; per directory subsets of {a.go, b.txt, .x.go, c.go->symlink to a file outside, l->symlink to a directory outside, d.go/ directory, sub/, vendor/, testdata/, .h/, _u/}) x argument lists (length 1..2, thorough ..3) derived from the tree: '.', './...', '...', absolute, dir, dir/..., explicit files (also inside excluded directories), symlinks, non-Go files, duplicates, overlapping dir+file, abs+rel of the same path. " +
 			"Patch is the non-idempotent v0 -> v0 + 1 so that 'exactly once' is visible in the bytes; oracle = a reference walk of the in-memory tree written from the statement + whole-tree snapshot + -v lines in sorted order. non-trivial = the tree contains at least one excluded directory or symlink and at least one processed file",
 		Assumptions: []string{"all arguments exist (missing paths are C16's subject)", "the scratch directory itself has an ordinary name"},
 		Bounds:      func(tier string) map[string]any { return map[string]any{"depth": 3, "max_args": c15MaxArgs(tier)} },
@@ -193,6 +219,20 @@ func c15Candidates(t *tnode) []string {
 }
 
 func c15Gen(tier string, emit func(any)) {
+	// contents: every assignment of content kinds to three requested files (quick: every pair of kinds on a.go and
+	// sub/c.go with b.go plain; thorough: all triples)
+	for _, ka := range c15ContentOrder {
+		for _, kb := range c15ContentOrder {
+			if tier != "thorough" && kb != "plain" {
+				continue
+			}
+			for _, kc := range c15ContentOrder {
+				for _, args := range [][]string{{"."}, {"./...", "a.go"}} {
+					emit(&C15Case{Contents: []string{ka, kb, kc}, Args: args})
+				}
+			}
+		}
+	}
 	c15Trees(tier, func(t *tnode) {
 		cands := c15Candidates(t)
 		for _, a := range cands {
@@ -366,8 +406,57 @@ func c15Materialize(t *tnode, root string) map[string]string {
 	return files
 }
 
+// c15RunContents: whatever the requested files look like, each is processed exactly once.
+func c15RunContents(env *core.Env, c *C15Case) core.Outcome {
+	names := []string{"a.go", "b.go", "sub/c.go"}
+	judge := func(real bool) core.Outcome {
+		out := core.Outcome{Nontrivial: true, Class: "contents"}
+		bad := func(key, f string, a ...any) core.Outcome {
+			out.Violation = fmt.Sprintf("[contents %v, args %v] ", c.Contents, c.Args) + fmt.Sprintf(f, a...)
+			out.FindingKey = key
+			return out
+		}
+		tree := map[string]string{"p.patch": c15GuardedPatch}
+		for i, n := range names {
+			src, ok := c15ContentKinds[c.Contents[i]]
+			if !ok {
+				panic("harness: unknown content kind " + c.Contents[i])
+			}
+			tree["work/"+n] = src
+		}
+		sb := newSandbox(env, "c15c", tree)
+		defer sb.remove()
+		r := sb.run(real, "work", append([]string{"-p", sb.path("p.patch")}, c.Args...), "")
+		if r.Panic != "" {
+			return bad("panic", "gopatch crashed: %s", r.Panic)
+		}
+		if r.Exit != 0 {
+			return bad("exit", "exit %d, stderr %q", r.Exit, r.Stderr)
+		}
+		for i, n := range names {
+			src := c15ContentKinds[c.Contents[i]]
+			got := sb.read("work/" + n)
+			want, err := canon.Source([]byte(strings.Replace(src, "= v0", "= v0 + 1", 1)), canon.Options{MaskImports: true})
+			if err != nil {
+				panic("harness: content kind does not parse: " + err.Error())
+			}
+			if got == src {
+				return bad("not-processed", "file %s (%s) was requested and the patch applies to it, but it is unchanged", n, c.Contents[i])
+			}
+			if gc, err := canon.Source([]byte(got), canon.Options{MaskImports: true}); err != nil || gc != want {
+				return bad("processed-wrong", "file %s (%s) was not rewritten exactly once: %q (%v)", n, c.Contents[i], got, err)
+			}
+		}
+		return out
+	}
+	return believeIfReal(judge)
+}
+
 func c15Run(env *core.Env, ci any) core.Outcome {
 	c := ci.(*C15Case)
+	if len(c.Contents) > 0 {
+		return c15RunContents(env, c)
+	}
 	expected := c15Expected(c.Tree, c.Args)
 	special := false
 	var scan func(n *tnode)
